@@ -277,6 +277,18 @@ def _sort_clear_runs(stmts):
     return out
 
 
+def _norm_nulltest(e):
+    """`p == nullptr` / `nullptr == p`  ->  `!p`   and   `p != nullptr`  ->  `p`  (same test, two spellings)."""
+    if e.get("kind") == "BinaryOperator" and e.get("opcode") in ("==", "!="):
+        l, r = [_u(x) for x in kids(e)]
+        for p, q in ((l, r), (r, l)):
+            if q.get("kind") in ("CXXNullPtrLiteralExpr", "GNUNullExpr") and qt(p).rstrip().endswith("*"):
+                if e.get("opcode") == "!=":
+                    return p
+                return {"kind": "UnaryOperator", "opcode": "!", "inner": [p], "line": e.get("line"), "file": e.get("file")}
+    return e
+
+
 def _no_fall(s):
     if not s:
         return False
@@ -353,6 +365,7 @@ class Aligner:
             raise Diff(a, b, "one side is empty")
         if self.equiv(a, b):
             return
+        a, b = _norm_nulltest(a), _norm_nulltest(b)
         ka, kb = a.get("kind"), b.get("kind")
         # temporaries vs construct expressions are the same thing
         norm = {"CXXTemporaryObjectExpr": "CXXConstructExpr"}
